@@ -5,6 +5,7 @@ import (
 	"fmt"
 	"os"
 	"sort"
+	"strings"
 	"time"
 
 	"bmsym/checks"
@@ -24,13 +25,20 @@ func main() {
 		harness := fs.String("harness", "/verif/harness", "")
 		name := fs.String("fn", "", "harness function")
 		attrs := fs.Int("attrs", 1, "")
+		stubs := fs.String("stubs", "", "fn=stub,...")
 		fs.Parse(os.Args[2:])
+		stubMap := map[string]string{}
+		for _, kv := range strings.Split(*stubs, ",") {
+			if i := strings.Index(kv, "="); i > 0 {
+				stubMap["(*github.com/microcosm-cc/bluemonday.Policy)."+kv[:i]] = kv[i+1:]
+			}
+		}
 		c := &checks.Ctx{Repo: *repo, Harness: *harness, Tier: "quick", Start: time.Now()}
 		if err := c.Load(); err != nil {
 			fmt.Fprintln(os.Stderr, err)
 			os.Exit(2)
 		}
-		in, err := c.NewInterp(sym.Config{MaxAttrs: *attrs})
+		in, err := c.NewInterp(sym.Config{MaxAttrs: *attrs, Stubs: stubMap})
 		if err != nil {
 			fmt.Fprintln(os.Stderr, err)
 			os.Exit(2)
